@@ -1,3 +1,66 @@
-From DI Require Import PyStr Deb822.
-Theorem C05_placeholder : True. Proof. exact I. Qed.
-Print Assumptions C05_placeholder.
+(* C05 - The line-tracking deb822 parser accounts for every source line exactly.
+   [groups t] = get_paragraphs_as_field_groups(t); [flat gs] = all reported
+   (number, value) pairs in output order; [lines_from_text t] = the numbered
+   source lines (LF, CRLF, CR end a line). *)
+From Coq Require Import String.
+From Coq Require Import NArith List Bool Sorted.
+From DI Require Import Result PyStr PyStrFacts Deb822 Deb822Facts.
+Import ListNotations.
+Open Scope N_scope.
+
+(* the parser is total *)
+Theorem C05_total : forall t, exists gs, groups t = Ok gs.
+Proof. exact groups_total. Qed.
+Print Assumptions C05_total.
+
+(* the whole accounting: in source order, every source line is either reported once - with
+   its own number and a value that is the line without trailing blanks, or the line
+   verbatim, or (for a declaration) the text after the first colon trimmed - or it is
+   droppable: blank, or a declaration whose value is empty *)
+Theorem C05_accounting : forall t gs, groups t = Ok gs -> acc (lines_from_text t) (flat gs).
+Proof. exact groups_acc. Qed.
+Print Assumptions C05_accounting.
+
+Theorem C05_text_faithful : forall t gs, groups t = Ok gs ->
+  forall o, In o (flat gs) -> exists s, In s (lines_from_text t) /\ line_ok s o.
+Proof. intros t gs H. exact (acc_reported _ _ (groups_acc t gs H)). Qed.
+Print Assumptions C05_text_faithful.
+
+Theorem C05_only_blank_or_empty_decl_dropped : forall t gs, groups t = Ok gs ->
+  forall s, In s (lines_from_text t) -> (exists o, In o (flat gs) /\ line_ok s o) \/ droppable s.
+Proof. intros t gs H. exact (acc_unreported _ _ (groups_acc t gs H)). Qed.
+Print Assumptions C05_only_blank_or_empty_decl_dropped.
+
+(* numbers are true and strictly increasing across the whole result (hence at most once) *)
+Theorem C05_numbers_true_and_increasing : forall t gs, groups t = Ok gs ->
+  StronglySorted N.lt (map ln_num (flat gs)) /\
+  Forall (fun n => 1 <= n <= N.of_nat (length (text_lines t))) (map ln_num (flat gs)).
+Proof. exact groups_numbers. Qed.
+Print Assumptions C05_numbers_true_and_increasing.
+
+(* and contiguous inside every field *)
+Theorem C05_contiguous_in_field : forall t gs, groups t = Ok gs -> Forall group_consec gs.
+Proof. exact groups_consec. Qed.
+Print Assumptions C05_contiguous_in_field.
+
+(* a reported field does not end in a blank line *)
+Theorem C05_no_trailing_blank : forall f,
+  match rev (f_lines (finish_field f)) with l :: _ => is_blank (ln_val l) = false | [] => True end.
+Proof. exact finish_last_nonblank. Qed.
+Print Assumptions C05_no_trailing_blank.
+
+(* line structure: source lines hold no LF or CR; lines joined by LF are read back as they are
+   (a form feed or another separator character does not end a line) *)
+Theorem C05_line_structure : forall t, Forall (no_lb is_lf_cr) (text_lines t).
+Proof. exact text_lines_no_terminator. Qed.
+Print Assumptions C05_line_structure.
+
+Theorem C05_line_structure_join : forall ls, Forall (no_lb is_lf_cr) ls -> ls <> [] -> last ls [0] <> [] ->
+  text_lines (join [10] ls) = ls.
+Proof. exact text_lines_join. Qed.
+Print Assumptions C05_line_structure_join.
+
+Example C05_form_feed_is_not_a_line_end :
+  groups (lit "License: GPL" ++ [10] ++ lit " foo" ++ [12] ++ lit "bar" ++ [10] ++ lit " baz" ++ [10]) =
+  Ok [[mkField (lit "license") [mkLine 1 (lit "GPL"); mkLine 2 (lit " foo" ++ [12] ++ lit "bar"); mkLine 3 (lit " baz")]]].
+Proof. vm_compute. reflexivity. Qed.
